@@ -18,6 +18,7 @@ def stepLine (d : DState) (line : String) : DState × String :=
   | "CG" :: rest => (d, CandGraph.handle rest)
   | "LB" :: rest => (d, Labels.handle rest)
   | "IM" :: rest => (d, Import.handle rest)
+  | "EX" :: rest => (d, Export.handle rest)
   | _ => (d, "bad-op")
 
 partial def loop (hin : IO.FS.Stream) (hout : IO.FS.Stream) (d : DState) : IO Unit := do
